@@ -178,6 +178,23 @@ fn check_items(ctx: &mut Ctx, prop: &str, route: &str, items: &[Item], capped: b
                     ctx.fail(prop, "same-geometry", format!("{}:{}", route, site), format!("{}: record {} ({}, m_present={}): {}", route, i, r.geom.short(), r.m_present, d));
                     return;
                 }
+                // the role of a polygon ring is its orientation: where the exact signed area is not
+                // zero and the plain double-precision shoelace sum has the same sign (so that no
+                // rounding is involved, see the known finding of C01), clockwise is outer
+                if is_polygon(g.ty) {
+                    for (ri, part) in g.parts.iter().enumerate() {
+                        let Some(exact) = exact_area(&part.pts) else { continue };
+                        let naive: f64 = part.pts.windows(2).map(|w| (f64::from_bits(w[1][0]) - f64::from_bits(w[0][0])) * (f64::from_bits(w[1][1]) + f64::from_bits(w[0][1]))).sum();
+                        if exact == 0 || naive == 0.0 || naive.is_nan() || (naive < 0.0) != (exact < 0) {
+                            continue;
+                        }
+                        let want = if exact < 0 { 1 } else { 0 };
+                        if part.kind != want {
+                            ctx.fail(prop, "ring-role", format!("{}:{}", route, site), format!("{}: record {} ring {}: twice the exact signed area is {} units, the ring was returned as {}", route, i, ri, exact, if part.kind == 1 { "inner" } else { "outer" }));
+                            return;
+                        }
+                    }
+                }
             }
         }
     }
@@ -440,6 +457,40 @@ pub fn execute(s: &ForScn, ctx: &mut Ctx) {
         Open::Panic(p) => ctx.fail("C14", "panic", p.site(), format!("with_shx: {}", p.text())),
     }
     ctx.stats.absorb_world(&world.borrow());
+    if has_null && s.ty != 0 && n >= 2 {
+        // a typed loop that stops at the first record it cannot give (a null record), then a second
+        // loop on the same reader: together one item per index entry, in index order
+        let world = mk();
+        if let Open::Ok(mut r) = open(&world, true, s.rstack) {
+            let ty = s.ty;
+            let res = guarded(|| {
+                let mut first: Vec<Item> = Vec::new();
+                crate::on_type!(ty, S => {
+                    for x in r.iter_shapes_as::<S>() {
+                        let stop = x.is_err();
+                        first.push(x.map(|s| s.to_geom()).map_err(|e| classify(&e)));
+                        if stop {
+                            break;
+                        }
+                    }
+                }, ());
+                let (rest, capped) = drain(r.iter_shapes(), cap);
+                (first, rest, capped)
+            });
+            match res {
+                Ok((first, rest, capped)) => {
+                    let k = first.len();
+                    let typed_ok = k >= 1 && first[..k - 1].iter().all(|x| x.is_ok()) && (k == n && first[k - 1].is_ok() || matches!(&first[k - 1], Err(RErr::Mismatch { actual: 0, .. })));
+                    let rest_ok = !capped && rest.len() == n - k && rest.iter().zip(s.recs[k.min(n)..].iter()).all(|(it, rec)| matches!(it, Ok(g) if diff_foreign(&expected_of(rec), rec.m_present, g).is_none()));
+                    if !typed_ok || !rest_ok {
+                        ctx.fail("C14", "count", format!("two-loops:{}", lsite), format!("a typed loop up to its first error yielded {:?}, a second loop then {:?}: not one item per index entry ({} entries)", first.iter().map(item_short).collect::<Vec<_>>(), rest.iter().map(item_short).collect::<Vec<_>>(), n));
+                    }
+                }
+                Err(p) => ctx.fail("C14", "panic", p.site(), format!("two loops: {}", p.text())),
+            }
+        }
+        ctx.stats.absorb_world(&world.borrow());
+    }
     if n >= 1 {
         // Iterator::last() on a fresh indexed reader: the record of the last entry, wherever it is stored
         let world = mk();
@@ -788,6 +839,31 @@ pub fn c14_sweep_unit(unit: u64, ctx: &mut Ctx, ctl: &mut UnitCtl) {
 pub fn c03_sweep_unit(unit: u64, ctx: &mut Ctx, ctl: &mut UnitCtl) {
     let ty = ALL_CODES[(unit % 14) as usize];
     let mut r = Rng::new(0xC03 + unit);
+    if is_polygon(ty) {
+        // rings of tiny but exactly non-zero area in both orientations: a hole of side 2^-30 at
+        // (10, 10); a sliver whose x coordinates are 0, 1 and 2 units of the smallest subnormal
+        let u = f64::from_bits(1);
+        let v = |x: f64, y: f64| -> V { [x.to_bits(), y.to_bits(), if has_z(ty) { 1f64.to_bits() } else { 0 }, if has_m(ty) { 2f64.to_bits() } else { 0 }] };
+        let d = (2.0f64).powi(-30);
+        let rings: Vec<Vec<V>> = vec![
+            vec![v(10.0, 10.0), v(10.0 + d, 10.0), v(10.0 + d, 10.0 + d), v(10.0, 10.0 + d), v(10.0, 10.0)],
+            vec![v(0.0, 0.5), v(-u, 0.5), v(-2.0 * u, 0.5), v(-2.0 * u, -0.5), v(0.0, 0.5)],
+        ];
+        for ring in rings {
+            for rev in [false, true] {
+                let pts: Vec<V> = if rev { ring.iter().rev().copied().collect() } else { ring.clone() };
+                let g = Geom { ty, parts: vec![Part { kind: -1, pts }], bbox: Some([0; 8]) };
+                let scn = ForScn { ty, hdr_bbox: [0; 8], recs: vec![ForRec { number: 1, geom: g, m_present: has_m(ty) }], order: vec![], filler: vec![], trailing: vec![], rstack: StackCfg::Direct, rplan: Plan::default() };
+                if !ctl.before_case(|| Scenario::Foreign(scn.clone())) {
+                    continue;
+                }
+                ctx.stats.evaluations += 1;
+                ctx.stats.reach("foreign-ring-of-tiny-area");
+                execute(&scn, ctx);
+                ctl.after_case(ctx, || Scenario::Foreign(scn.clone()));
+            }
+        }
+    }
     for variant in 0..8u32 {
         for shape_mode in 0..4 {
             let mut recs = Vec::new();
